@@ -89,7 +89,7 @@ func isASCII(s string) bool {
 
 func TestC01Exhaustive(t *testing.T) {
 	col := coll("C01", "exhaustive")
-	maxN := pick(5, 7)
+	maxN := pick(5, 8)
 	col.Rule = fmt.Sprintf("all ordered forests with <=%d nodes x names over {a,b} x %d spellings x %d branch tuples x 2 code paths", maxN, len(model.Panel), len(branchPanel))
 	i := 0
 	model.EnumForests(maxN, []string{"a", "b"}, func(f model.Forest) {
